@@ -444,4 +444,30 @@ theorem sar_impl_eq_spec (shift v : W) : sarImpl shift v = sarSpec shift v := by
         simp only [hne, if_false]
         rw [toNat_ofI_neg_natCast (by omega) (by omega)]
 
+/-- CLZ (EIP-7939): 256 for zero, else 255 − ⌊log₂ x⌋ = the number of zero bits above the highest set bit. -/
+theorem clz_impl_eq_spec (x : W) : clzImpl x = clzSpec x := by
+  unfold clzImpl clzSpec
+  rw [leadingZeros_eq]
+  by_cases h : x.toNat = 0
+  · simp [h, ofN]
+  · simp only [h, if_false, ofN]
+    rw [Nat.mod_eq_of_lt (by omega)]
+
+/-- what `clzSpec` means: `x < 2^(256 − clz)` and, unless `x = 0`, `2^(255 − clz) ≤ x` — i.e. exactly
+    `clz` leading bits are zero. -/
+theorem clz_spec_characterisation (x : W) :
+    (clzSpec x).toNat ≤ 256 ∧ x.toNat < 2 ^ (256 - (clzSpec x).toNat) ∧
+    (x.toNat ≠ 0 → 2 ^ (255 - (clzSpec x).toNat) ≤ x.toNat) := by
+  unfold clzSpec
+  by_cases h : x.toNat = 0
+  · simp [h, ofN]
+  · have hl : Nat.log2 x.toNat < 256 := (Nat.log2_lt h).mpr x.isLt
+    have h1 : 255 - Nat.log2 x.toNat < 2 ^ 256 := by omega
+    simp only [h, if_false, toNat_ofN_of_lt h1]
+    refine ⟨by omega, ?_, fun _ => ?_⟩
+    · have e : 256 - (255 - Nat.log2 x.toNat) = Nat.log2 x.toNat + 1 := by omega
+      rw [e]; exact Nat.lt_log2_self
+    · have e : 255 - (255 - Nat.log2 x.toNat) = Nat.log2 x.toNat := by omega
+      rw [e]; exact Nat.log2_self_le h
+
 end BA.Evm
